@@ -60,7 +60,9 @@ func readJSON(path string, v interface{}) error {
 	return json.Unmarshal(data, v)
 }
 
-const verifDir = "/verif"
+// verifDir is /verif; VERIF_DIR overrides it for sweeps run from a snapshot of /verif (the seeded-change
+// corpus), so that such a run cannot disturb the evidence and scratch files of the registered checks.
+var verifDir = envOr("VERIF_DIR", "/verif")
 
 func cmdCheck(args []string) int {
 	if len(args) < 1 {
@@ -243,7 +245,14 @@ func cmdCheck(args []string) int {
 		}
 		var keep []*Obligation
 		for _, o := range r.Obls {
-			if strings.HasPrefix(o.Kind, "frame") || o.Kind == "nonvacuous" {
+			// (besides the frames: clauses explicitly tagged with this property, e.g. "the hasher is a fresh object")
+			tagged := false
+			for _, tg := range o.Tags {
+				if tg == prop {
+					tagged = true
+				}
+			}
+			if strings.HasPrefix(o.Kind, "frame") || o.Kind == "nonvacuous" || tagged {
 				keep = append(keep, o)
 			}
 		}
